@@ -125,15 +125,15 @@ Opqs   == {VOpq(l) : l \in OpqLimbs}
 Scalars == Ints \cup Floats \cup Bools \cup {VStr(b) : b \in Strs(3)} \cup Opqs \cup {VVoid}
 AL == IF Big THEN 3 ELSE 2                                   \* array length bound
 ShortStrs == {VStr(b) : b \in Strs(IF Big THEN 2 ELSE 1)}
-Homog == {VArr(TagInt, xs) : xs \in SeqsUpTo(Ints, 2)} \cup {VArr(TagFloat, xs) : xs \in SeqsUpTo(Floats, 2)}
+Homog == {VArr(TagInt, xs) : xs \in SeqsUpTo(Ints, AL)} \cup {VArr(TagFloat, xs) : xs \in SeqsUpTo(Floats, AL)}
          \cup {VArr(TagBool, xs) : xs \in SeqsUpTo(Bools, AL + 1)} \cup {VArr(TagString, xs) : xs \in SeqsUpTo(ShortStrs, AL)}
          \cup {VArr(TagOpaque, xs) : xs \in SeqsUpTo(Opqs, AL)} \cup {VArr(TagVoid, xs) : xs \in SeqsUpTo({VVoid}, AL)}
 OneOfEach == {VInt(<<0, 0, 0, 7>>), VFlt(<<0, 0, 0, 0, 0, 0, 248, 127>>), VBool(1), VStr(<<97, 0>>), VOpq(<<0, 0, 0, 9>>), VVoid}
-Mixed == {VArr(et, xs) : et \in {TagInt, TagString, TagVoid, 99}, xs \in SeqsUpTo(OneOfEach, 2)}
+Mixed == {VArr(et, xs) : et \in {TagInt, TagString, TagVoid, 99}, xs \in SeqsUpTo(OneOfEach, AL)}
 A1small == {VArr(TagInt, <<>>), VArr(TagString, <<>>), VArr(TagArray, <<>>), VArr(TagInt, <<VInt(<<32768, 0, 0, 0>>)>>),
             VArr(TagString, <<VStr(<<>>), VStr(<<0, 255>>)>>), VArr(TagFloat, <<VFlt(<<1, 0, 0, 0, 0, 0, 240, 127>>)>>),
             VArr(TagBool, <<VBool(1), VBool(0), VBool(1)>>), VArr(TagVoid, <<VVoid>>), VArr(TagOpaque, <<VOpq(<<0, 0, 0, 1>>)>>)}
-Nested2 == {VArr(TagArray, xs) : xs \in SeqsUpTo(A1small, 2)}
+Nested2 == {VArr(TagArray, xs) : xs \in SeqsUpTo(A1small, AL)}
 Nested3 == {VArr(TagArray, <<a, b>>) : a \in {VArr(TagArray, <<>>), VArr(TagArray, <<VArr(TagInt, <<>>), VArr(TagString, <<VStr(<<97>>)>>)>>)},
                                        b \in {VInt(<<0, 0, 0, 1>>), VArr(TagArray, <<VArr(TagArray, <<>>)>>)}}
 Values == Scalars \cup Homog \cup Mixed \cup Nested2 \cup Nested3
@@ -149,10 +149,11 @@ ByteSumR(s, lo, hi) == IF lo > hi THEN 0
 ByteSum(s) == ByteSumR(s, 1, Len(s))
 
 \* hostile buffers: every byte string of a bounded shape (for the decoder's own safety)
-HB == {0, 1, 255, 128, TagString, TagArray, TagInt}
+LenBytes == IF Big THEN {0, 1, 2, 127, 128, 251, 255} ELSE {0, 1, 251, 255}
+CntBytes == IF Big THEN {0, 1, 2, 3, 128, 255} ELSE {0, 1, 2, 255}
 HostileBufs == SeqsUpTo({TagString, TagArray, 255, 0, 5}, 1) \cup
-               {<<TagString>> \o l \o t : l \in [1..4 -> {0, 1, 251, 255}], t \in SeqsUpTo({97}, 2)} \cup
-               {<<TagArray, e>> \o l \o t : e \in {TagInt, 0}, l \in [1..4 -> {0, 1, 2, 255}],
+               {<<TagString>> \o l \o t : l \in [1..4 -> LenBytes], t \in SeqsUpTo({97}, IF Big THEN 3 ELSE 2)} \cup
+               {<<TagArray, e>> \o l \o t : e \in {TagInt, 0}, l \in [1..4 -> CntBytes],
                                            t \in {<<>>, <<TagVoid>>, <<TagBool, 1>>, <<TagBool, 1, TagVoid>>, <<TagString, 255, 255, 255, 255>>,
                                                   <<TagArray, 0, 255, 255, 255, 255, 0>>}}
 
